@@ -116,6 +116,7 @@ EXTRA = {
  "C01": " The registry also contains the exported ExtendedCurve implementation of edwards25519vartime (21 instances).",
  "C02": " Receiver-aliased forms r.Op(r,b), r.Op(a,r), r.Op(r,r); values made by every constructor (fresh, Zero, One, SetInt64, short SetBytes, Pick, Clone) as operands and in Equal, both directions.",
  "C03": " Scalars include Pick results under streams that start with the encodings of q-1, q, q+1.",
+ "C04": " Further composite entry points: Pedersen / Rabin Verifier.ProcessEncryptedDeal with each byte field of an encrypted deal replaced by hostile bytes, shuffle.Verifier and BiffleVerifier on hostile proofs, the hexadecimal readers (51 entry points).",
  "C05": " After every program a latent-sharing probe writes every variable in place once: a variable sharing storage with another one receives two increments.",
  "C07": " Large n in {8,12,16,21,24,32} (thorough to 64) with a menu of subset shapes; the sum of two commitment polynomials keeps its base.",
  "C08": " Negated R / S / key; every small-order key with an ordinary R=k*B, S=k over 64 messages.",
